@@ -221,6 +221,33 @@ func (g *gen) genDataFile(o dataOpts) *dataFile {
 				df.lines = append(df.lines, g.recordLine(df, o, name, z.name))
 			}
 		}
+		// a name whose only records carry location ids: for a client of another location (or of
+		// none) the name exists without data - NODATA, not NXDOMAIN, on every key layout
+		if o.locs && g.chance(1, 2) {
+			name := g.pick([]string{"only", "lo.x-1", "www.only"}) + "." + z.name
+			z.owners = append(z.owners, name)
+			if g.bool() {
+				// ... and one untagged record of one type: other types are NODATA for everybody
+				df.lines = append(df.lines, g.join("S", []string{name, "", "host.", "65535", "", "5"}))
+			}
+			for j := 0; j < 1+g.intn(2); j++ {
+				// location ids that sort before and after the ids clients are mapped to: with sorted
+				// keys the closest key to (name, client's location) is then this name under ANOTHER
+				// location, and the reader has to go on to the untagged records
+				lo := g.pick([]string{"qq", "\\000\\001", "\\377\\376", "AA"})
+				if len(df.locs) > 0 && g.chance(1, 3) {
+					lo = g.pick(df.locs)
+				}
+				switch g.intn(3) {
+				case 0:
+					df.lines = append(df.lines, g.join("+", []string{name, g.ip(o), g.ttl(), "", lo}))
+				case 1:
+					df.lines = append(df.lines, g.join("^", []string{name, "n1." + z.name, g.ttl(), "", lo}))
+				default:
+					df.lines = append(df.lines, g.join("'", []string{name, "text", g.ttl(), "", lo}))
+				}
+			}
+		}
 		// delegations
 		if g.chance(1, 2) {
 			child := g.label(dataOpts{}) + "." + z.name
